@@ -11,6 +11,8 @@ from . import c07
 from . import tr
 from .c10 import _as
 
+from .common import Guard  # noqa: E402
+
 PROP = 'C06'
 DECIDED = [
     'R1: Builder.preprocess splices the stages of an included stream in place, in order (slice assignment of the plain .stages attribute, cursor advanced by its length).',
@@ -298,10 +300,11 @@ def r7(repo, run):
 
 def r8(repo, run):
     n = 0
-    for q in ('Builder.add_source',) + tuple(f.qualname for f in repo.all_functions(include_nested=False) if f.cls is not None and f.cls.name in ('Builder', 'SubBuilder') and f.name not in ('add_source', '__init__', 'flatten', 'preprocess')):
-        fi = repo.func(q)
+    for fi in repo.all_functions(include_nested=False):
+        if fi.cls is not None and fi.cls.name in ('Builder', 'SubBuilder') and fi.name in ('__init__', 'flatten', 'preprocess'):
+            continue
         for c in calls_in(fi.node):
-            if isinstance(c.func, ast.Attribute) and norm(c.func.value) == 'self.stages' and c.func.attr in ('append', 'extend', 'insert'):
+            if isinstance(c.func, ast.Attribute) and (norm(c.func.value) == 'self.stages' or norm(c.func.value).endswith('.stages')) and c.func.attr in ('append', 'extend', 'insert') and c.args:
                 n += 1
                 arg = c.args[-1]
                 fresh = False
@@ -322,14 +325,16 @@ def r8(repo, run):
 
 
 def check(repo, run, tier):
-    r1(repo, run)
-    r2(repo, run)
-    r3(repo, run)
-    r4(repo, run)
-    _as(run, 'C07.R6', 'C06.R5', lambda: c07.r6(repo, run))
-    r6(repo, run)
-    r7(repo, run)
-    r8(repo, run)
+    g = Guard()
+    g(r1, repo, run)
+    g(r2, repo, run)
+    g(r3, repo, run)
+    g(r4, repo, run)
+    g(_as, run, 'C07.R6', 'C06.R5', lambda: c07.r6(repo, run))
+    g(r6, repo, run)
+    g(r7, repo, run)
+    g(r8, repo, run)
+    g.done()
 
 
 def merge_two(r):
